@@ -27,6 +27,8 @@ import difflib
 import os
 import re
 import shlex
+import warnings
+warnings.filterwarnings('ignore', category=FutureWarning)   # character classes like `[[]` in resub= patterns
 
 from rsparse import Src, mask, match_close, expand_macro_rules, norm
 from rewrite import Rewriter, Unsupported
